@@ -67,6 +67,7 @@ type Prog struct {
 	ZeroReads       int       `json:"zero_reads_every,omitempty"`          // stream modes: every n-th Read of the body stream returns (0, nil)
 	CloseFails      bool      `json:"stream_close_fails,omitempty"`        // stream modes: the stream has a Close method, which returns an error
 	LimitSlack      int       `json:"limited_reader_slack,omitempty"`      // LimitedReader mode: N exceeds the bytes the source holds by this much (an upper bound, not a length)
+	EarlierStream   int       `json:"earlier_stream_len,omitempty"`        // before the pre-status: SetBodyStream of this many bytes under the initial 200 (a body the handler then replaces)
 	PreStatus       int       `json:"pre_status,omitempty"`                // a status the handler sets first and replaces after the body was set (0 = none)
 	Salt            byte      `json:"salt"`
 	Flavor          int       `json:"flavor"`
@@ -145,6 +146,9 @@ func handler(c context.Context, ctx *app.RequestContext) {
 	p := &curCase.Progs[i]
 	if p.ResetFirst {
 		ctx.Response.Reset()
+	}
+	if p.EarlierStream > 0 {
+		ctx.SetBodyStream(&pieceReader{data: bytes.Repeat([]byte("e"), p.EarlierStream), pieces: []int{7}}, p.EarlierStream)
 	}
 	if p.PreStatus != 0 {
 		ctx.SetStatusCode(p.PreStatus)
@@ -478,6 +482,9 @@ func genCase(t *rapid.T) *Case {
 		p.SetCLHeader = (p.Mode == mStreamUnknown || p.Mode == mStreamLimited) && len(p.Trailers) == 0 && rapid.IntRange(0, 2).Draw(t, "setContentLengthHeader") == 0
 		if p.Mode != mChunkedWriter && rapid.IntRange(0, 5).Draw(t, "preStatus") == 0 {
 			p.PreStatus = rapid.SampledFrom([]int{204, 304, 200, 404}).Draw(t, "preStatusValue")
+		}
+		if (p.PreStatus == 204 || p.PreStatus == 304) && (p.Mode == mStreamKnown || p.Mode == mStreamUnknown || p.Mode == mStreamLimited) && rapid.Bool().Draw(t, "earlierStream") {
+			p.EarlierStream = rapid.SampledFrom([]int{3, 10, 5000}).Draw(t, "earlierStreamLen")
 		}
 		if p.Mode != mChunkedWriter && rapid.IntRange(0, 3).Draw(t, "delFramingHeader") == 0 {
 			p.DelHeader = rapid.SampledFrom([]string{"Transfer-Encoding", "Content-Length", "transfer-encoding"}).Draw(t, "delHeader")
